@@ -11,7 +11,8 @@
 3. The Go harness runs every scenario on the real netmc writer/reader pair over an in-memory
    connection with that chunking and records the frames as an independent parser sees them
    (own VarInt, own CFB8 over crypto/aes, compress/zlib) and the payloads delivered.
-   One more connection carries 45 000 small compressed + encrypted packets through a single
+   Every other late-switch connection leaves the first payload unflushed in the writer while
+   encryption / compression are switched on.  One more connection carries 45 000 small compressed + encrypted packets through a single
    writer/reader pair (long-lived state: buffer pools, zlib and cipher re-use).
 4. TLC validates the recorded connections (Framing_Trace.tla).
 """
